@@ -379,23 +379,24 @@ theorem insertSorted_strict (x : Nat) (l : List Nat) (h : l.Pairwise (· < ·)) 
       · omega
       · exact h1 y hy
 
+theorem insertSort_spec : ∀ (l : List Nat), l.Nodup →
+    (l.foldr C16.insertSorted []).Pairwise (· < ·) ∧ ∀ x, x ∈ l.foldr C16.insertSorted [] ↔ x ∈ l := by
+  intro l
+  induction l with
+  | nil => intro _; simp
+  | cons y r ih =>
+    intro h
+    obtain ⟨hy, hr⟩ := List.nodup_cons.mp h
+    obtain ⟨a1, a2⟩ := ih hr
+    simp only [List.foldr_cons]
+    refine ⟨insertSorted_strict y _ a1 (fun e => hy ((a2 y).mp e)), fun x => ?_⟩
+    rw [mem_insertSorted, a2 x]; simp
+
 theorem sortedUsed_spec (A : Model.Op) :
     (sortedUsed A).Pairwise (· < ·) ∧ ∀ x, x ∈ sortedUsed A ↔ ∃ e ∈ A, ∃ g ∈ e.1, g.1 = x := by
   obtain ⟨h1, h2⟩ := usedIdx_spec A
   unfold sortedUsed
-  have gen : ∀ (l : List Nat), l.Nodup →
-      (l.foldr C16.insertSorted []).Pairwise (· < ·) ∧ ∀ x, x ∈ l.foldr C16.insertSorted [] ↔ x ∈ l := by
-    intro l
-    induction l with
-    | nil => intro _; simp
-    | cons y r ih =>
-      intro h
-      obtain ⟨hy, hr⟩ := List.nodup_cons.mp h
-      obtain ⟨a1, a2⟩ := ih hr
-      simp only [List.foldr_cons]
-      refine ⟨insertSorted_strict y _ a1 (fun e => hy ((a2 y).mp e)), fun x => ?_⟩
-      rw [mem_insertSorted, a2 x]; simp
-  obtain ⟨g1, g2⟩ := gen (usedIdx A) h1
+  obtain ⟨g1, g2⟩ := insertSort_spec (usedIdx A) h1
   exact ⟨g1, fun x => by rw [g2 x, h2 x]⟩
 
 /-! ### the relabelling loop -/
